@@ -356,6 +356,11 @@ def run_ops(case, ctx, m, r, plan, real):
                      if expect_read else None)
         # ---- run it
         failed = None
+        if not real:
+            # bounded progress: a transfer of n bytes needs about n / buffer
+            # commands, each sent at most n_tries times
+            per = max(4, b & ~3)
+            r.net.tx_budget = 200 + 12 * (n // per + 2) * 5
         try:
             got = call()
         except (sc.TimeoutError,) as e:
